@@ -23,3 +23,31 @@
           (=> (and (>= k 0) (forall ((j Int)) (! (=> (and (<= 0 j) (< j k)) (= (select p (qnth p h j)) (select q (qnth p h j)))) :pattern ((qnth p h j)))))
               (= (qnth q h k) (qnth p h k))))
      :pattern ((qnth_local p q h k)) :pattern ((qnth p h k) (qnth q h k)))))
+; ---- byte accounting of a list of chunks (linkedlist.Buffer): B is the whole `buf` field map (node -> slice) ----
+; lsum(P, B, h, j) = total length of the first j chunks from h following P
+; sig lsum : (Array Int Int) (Array Int Slice) Int Int -> Int
+; sig lsum_unfold : (Array Int Int) (Array Int Slice) Int Int -> Bool
+; sig lsum_shift : (Array Int Int) (Array Int Slice) Int Int -> Bool
+; sig lsum_local : (Array Int Int) (Array Int Slice) (Array Int Int) (Array Int Slice) Int Int -> Bool
+(declare-fun lsum ((Array Int Int) (Array Int Slice) Int Int) Int)
+(assert (forall ((p (Array Int Int)) (b (Array Int Slice)) (h Int)) (! (= (lsum p b h 0) 0) :pattern ((lsum p b h 0)))))
+(declare-fun lsum_unfold ((Array Int Int) (Array Int Slice) Int Int) Bool)
+(assert (forall ((p (Array Int Int)) (b (Array Int Slice)) (h Int) (j Int))
+  (! (and (lsum_unfold p b h j)
+          (=> (> j 0) (= (lsum p b h j) (+ (lsum p b h (- j 1)) (sl.len (select b (qnth p h (- j 1))))))))
+     :pattern ((lsum_unfold p b h j)))))
+; shifting the head by one (lemma lsum_shift)
+(declare-fun lsum_shift ((Array Int Int) (Array Int Slice) Int Int) Bool)
+(assert (forall ((p (Array Int Int)) (b (Array Int Slice)) (h Int) (j Int))
+  (! (and (lsum_shift p b h j) (=> (>= j 0) (= (+ (lsum p b (select p h) j) (sl.len (select b h))) (lsum p b h (+ j 1)))))
+     :pattern ((lsum_shift p b h j)))))
+; locality (lemma lsum_local): the sum of the first j chunks depends only on the links of the first j-1 and the
+; slices of the first j nodes
+(declare-fun lsum_local ((Array Int Int) (Array Int Slice) (Array Int Int) (Array Int Slice) Int Int) Bool)
+(assert (forall ((p (Array Int Int)) (b (Array Int Slice)) (q (Array Int Int)) (c (Array Int Slice)) (h Int) (j Int))
+  (! (and (lsum_local p b q c h j)
+          (=> (and (>= j 0)
+                   (forall ((k Int)) (! (=> (and (<= 0 k) (< k j)) (= (qnth q h k) (qnth p h k))) :pattern ((qnth p h k)) :pattern ((qnth q h k))))
+                   (forall ((k Int)) (! (=> (and (<= 0 k) (< k j)) (= (sl.len (select c (qnth p h k))) (sl.len (select b (qnth p h k))))) :pattern ((qnth p h k)))))
+              (= (lsum q c h j) (lsum p b h j))))
+     :pattern ((lsum_local p b q c h j)))))
